@@ -40,6 +40,7 @@ func genC17(t *rapid.T) *Case {
 		r.Role = "identity"
 		r.Access = true
 		r.ChanOpt = rapid.Bool().Draw(t, fmt.Sprintf("r%d.chanopt", i))
+		r.ChanOpt2 = r.ChanOpt && rapid.IntRange(0, 2).Draw(t, fmt.Sprintf("r%d.chanopt2", i)) == 0
 		r.PeerOpt = rapid.Bool().Draw(t, fmt.Sprintf("r%d.peeropt", i))
 		switch rapid.IntRange(0, 3).Draw(t, fmt.Sprintf("r%d.md", i)) {
 		case 0:
@@ -167,6 +168,9 @@ func monC17(c *Case, tr *Trace) []Violation {
 			}
 			if v, ok := o.Extra["opt_chan"]; ok && v != wantChan {
 				add("channel_identity_wrong", o.End, "rpc %d: the WithTunnelChannel target holds %s; the RPC was served through %s", i, v, wantChan)
+			}
+			if v, ok := o.Extra["opt_chan2"]; ok && v != wantChan {
+				add("channel_identity_wrong", o.End, "rpc %d: the target of a second WithTunnelChannel option on the same call holds %s; the RPC was served through %s", i, v, wantChan)
 			}
 			if v, ok := o.Extra["ctx_tunnel_md"]; ok {
 				if v != mdString(wantTMD) {
